@@ -212,6 +212,9 @@ class DQN(RLAlgorithm):
                 else action_mask
             )
             action_mask = torch.as_tensor(action_mask, device=device)
+            if action_mask.dtype == torch.bool:
+                # A boolean mask cannot be subtracted from 1 in _get_action
+                action_mask = action_mask.int()
         else:
             if isinstance(torch_obs, dict):
                 sample = next(iter(torch_obs.values()))
